@@ -3,7 +3,8 @@ from rules.stream import RULES_C07 as RULES, STREAM_CONFIGS
 from rules.prefilter import r05_3
 from rules.agree import r04_1
 from rules.agree import r20_1
-RULES = list(RULES) + [('R05.3', r05_3), ('R04.1', r04_1), ('R20.1', r20_1)]
+from rules.prefilter import r05_7, r05_8
+RULES = list(RULES) + [('R05.3', r05_3), ('R04.1', r04_1), ('R20.1', r20_1), ('R05.7', r05_7), ('R05.8', r05_8)]
 
 LEVEL = 'other'
 THOROUGH_CONFIGS = ['default', 'std', 'logging']
